@@ -43,8 +43,9 @@ def nontrivial(trace):
     return False
 
 
-def run_one(ctx, W, out, chooser, terms, tag, slow_pm=False):
-    trace, errors, complete, drv = SC.explore(W, out, chooser, slow_pm=slow_pm)
+def run_one(ctx, W, out, chooser, terms, tag, slow_pm=False, sleepy=False):
+    """sleepy: Controller.sleep()/wake_up() are among the events; the trace is then a term for Sched.Sleep.check_scase"""
+    trace, errors, complete, drv = SC.explore(W, out, chooser, slow_pm=slow_pm, sleepy=sleepy)
     evs = [t[0] for t in trace]
     ctx.case([W, sorted(out.items()), evs], nontrivial(trace))
     ctx.count('%s_schedules' % tag)
@@ -65,7 +66,7 @@ def run_one(ctx, W, out, chooser, terms, tag, slow_pm=False):
     for (c, p, what, ev) in SC.launch_violations(W, trace):
         cls = []
         ctx.fail(dict(case, component=c, producer=p, at=ev), what, cls)
-    terms.append((SC.coq_case(W, out, trace), case))
+    terms.append(((SC.coq_scase if sleepy else SC.coq_case)(W, out, trace), case))
     if len(trace) > 6:
         ctx.sample({'workflow': W, 'outcome': out, 'schedule': evs,
                     'final_states': [c[0] for c in trace[-1][2]['comps']]}, limit=3)
@@ -153,6 +154,33 @@ def run(ctx):
                     return r2.choice(ticks) if r2.random() < bias else r2.choice(others)
                 return r2.randrange(len(en))
             run_one(ctx, W, out, ch, terms, 'random', slow_pm=(j == 1))
+    # ---- the controller put to sleep and woken up (Controller.sleep / wake_up) at arbitrary points
+    sterms = []
+    Ws = [SC.comp(), SC.comp(preds=[0]), SC.comp(preds=[1], rep=True)]
+    outs = {0: ['Success'], 1: ['Success'], 2: ['Success']}
+    run_one(ctx, Ws, outs, scripted([('Start',), ('Exit', 0), ('PM', 0), ('Fin', 0), ('Sleep',), ('Tick',), ('Wake',),
+                                     ('Tick',), ('Tick',)]), sterms, 'sleep_corpus', sleepy=True)
+    run_one(ctx, Ws, outs, scripted([('Start',), ('Sleep',), ('Exit', 0), ('PM', 0), ('Fin', 0), ('Tick',), ('Tick',),
+                                     ('Wake',), ('Tick',)]), sterms, 'sleep_corpus', sleepy=True)
+    nsl = 120 if ctx.tier == 'quick' else 3000
+    for i in range(nsl):
+        W = SC.gen_workflow(rng, nmax=5)
+        out = SC.gen_outcome(rng, W)
+        r2 = __import__('random').Random(rng.random())
+        psl = r2.choice([0.05, 0.15, 0.4])
+
+        def chs(en, step, r2=r2, psl=psl):
+            sl = [k for k, e in enumerate(en) if e[0] in ('Sleep', 'Wake')]
+            rest = [k for k, e in enumerate(en) if e[0] not in ('Sleep', 'Wake')]
+            if sl and (not rest or r2.random() < psl):
+                return sl[0]
+            return r2.choice(rest)
+        run_one(ctx, W, out, chs, sterms, 'sleep_random', sleepy=True)
+    sbad = ctx.model_mismatches(SC.HEADER + '\nRequire Import V.Sched.Sleep.', [t[0] for t in sterms], 'check_scase',
+                                chunk=120, name='sleep')
+    for k, i in enumerate(sbad):
+        ctx.disagree(sterms[i][1], 'trace of the real controller with sleep()/wake_up()', '',
+                     'C01 trace with sleep/wake_up: real Controller vs Sched.Sleep.sstep')
     bad = ctx.model_mismatches(SC.HEADER, [t[0] for t in terms], 'check_case', chunk=120)
     for k, i in enumerate(bad):
         where = ctx.model_eval(SC.HEADER, 'let \'(W, fx, tbl, tr) := %s in check_trace W fx (outcome_of tbl) state0 tr 0' % terms[i][0]) if k < 3 else ''
